@@ -94,6 +94,36 @@ M = {
  "C13-w3m2": ("stringsToNodes parses lists of >= 256 entries in goroutine batches and returns the first error received", ">= 256 entries with two different bad entries in different batches: which error comes back depends on timing"),
  "C14-w3m1": ("expandAnd fast path for plain AND chains calls left().andTerms() twice", "a conjunction parenthesised to the left at every level: work doubles per level"),
  "C14-w3m2": ("the -or-later rewrite appends the rest twice when a literal '+' follows", "two non-GNU X-or-later+ spellings in one expression: scanning never terminates"),
+ "C01-w4m1": ("sortAndDedup decides 'duplicate' with EqualFold; the in-place compaction overwrites a case-variant reference", "two LicenseRefs differing only in case in the list, a distinct entry sorting after them, the expression needing the second"),
+ "C01-w4m2": ("isCompatible walks the list once and keeps coverage in a uint64 bit set (goal 1<<len - 1)", "an alternative of >= 65 ANDed terms whose uncovered term sorts at position >= 64"),
+ "C02-w4m1": ("compareEQ's same-id shortcut compares ids with a trailing -only / -or-later stripped", "the six GFDL-1.x-(no-)invariants ids, which have -only and -or-later forms but are in no family"),
+ "C02-w4m2": ("getLicenseRange stops early when the group's first id is byte-wise greater than the id (table assumed sorted)", "families APSL and ASWF, which follow 'Apache' in case-insensitive but not in byte order"),
+ "C03-w4m1": ("readID reads Unicode letters; suffix tests on strings.ToLower(license) and lenLicense := len(lower) used to slice the typed id", "an id containing U+023A / U+023E (lower-casing grows by a byte) directly before '+', or 6 / 10 of them before a suffix"),
+ "C03-w4m2": ("allowed entries NONE / NOASSERTION are skipped with continue, leaving a nil node in the pre-sized slice", "an allowed list containing exactly NONE or NOASSERTION"),
+ "C04-w4m1": ("ValidateLicenses memoises verdicts per call under strings.TrimSpace(entry)", "one list holding the same text clean and padded with tab / newline / NBSP"),
+ "C04-w4m2": ("Satisfies refuses expressions whose expansion would exceed 1<<16 alternatives", "an AND of OR groups whose widths multiply to more than 65536"),
+ "C05-w4m1": ("WITH moved to its own precedence level, attached to whatever atom came back (incl. the inner node of a group)", "( L ) WITH e — a parenthesised single licence followed by WITH"),
+ "C05-w4m2": ("patterns precompiled; the id class became (?i)^[a-z0-9.-]+ (Unicode simple folding)", "U+017F or U+212A where a listed id has s / k, or anywhere in a reference name"),
+ "C06-w4m1": ("the -or-later rewrite replaces the first '-or-later' of the scanned prefix", "a listed GNU X-or-later (not rewritten) earlier than a rewritten non-GNU Y-or-later"),
+ "C06-w4m2": ("X followed by '+' becomes X-or-later only if X is on the deprecated list", "the six GFDL-1.x-(no-)invariants bases, which are not ids themselves, written with '+'"),
+ "C07-w4m1": ("isCompatible breaks out of the sorted list once it has 'left the licence group'", "a list holding a non-covering member, an id that sorts between the members without being one (CC-BY-3.0-IGO), and the covering member"),
+ "C07-w4m2": ("sortAndDedup decides 'duplicate' with licensesExactlyEqual (EqualFold)", "two references differing only in case plus an entry sorting after them"),
+ "C08-w4m1": ("the range lookup for both-sides-plus no longer strips -or-later", "AGPL (no -or-later rows in the table) on both sides, one side spelled '+' / -or-later, different versions"),
+ "C08-w4m2": ("the X+ -> X-or-later lookup is gated by a case-sensitive 'GPL' / 'GFDL' test", "gfdl-1.1-invariants+ (lower case; the base is no id, so there is no fallback)"),
+ "C09-w4m1": ("a lazily made lower-case copy of the expression is not rebuilt after an -or-later rewrite", "a mixed-case id before a rewritten term and a later mixed-case id as long as the id 8 / 9 bytes before it"),
+ "C09-w4m2": ("-or-later accepted for versioned deprecated ids, range table consulted with the typed spelling (==)", "bzip2-1.0.5-or-later in another letter case"),
+ "C10-w4m1": ("Satisfies skips rows whose FNV hash (terms fed without separator) was already seen", "terms whose texts concatenate to another term's text: LicenseRef-a, MIT, LicenseRef-aMIT"),
+ "C10-w4m2": ("appendTerms drops a right-hand term the left alternative 'already requires' (EqualFold)", "two references differing only in case on opposite sides of an AND over an OR"),
+ "C11-w4m1": ("the -or-later rewrite replaces the first '-or-later' in the scanned prefix", "GPL-2.0-or-later OR Apache-1.0-or-later: parse error instead of the '+' reach"),
+ "C11-w4m2": ("simplifyLicense folded into the table walk with HasSuffix on the remainder", "GFDL-1.x-(no-)invariants-or-later filed under GFDL-1.x: '+' reaches ids outside the family"),
+ "C12-w4m1": ("id pattern precompiled with (?i): U+017F / U+212A accepted and folded by EqualFold", "a Unicode look-alike of a listed id"),
+ "C12-w4m2": ("generated tables built once; the getters return the shared slice", "a caller writes into the slice a getter returned, then calls the library"),
+ "C13-w4m1": ("parsed allowed lists cached under strings.Join(list, \",\")", "an (invalid) entry containing commas whose pieces are a valid list used earlier in the process"),
+ "C13-w4m2": ("ExtractLicenses fast path returns the stored one-element slice for a bare official id", "a caller overwrites an element of the returned slice, then extracts the same id again"),
+ "C14-w4m1": ("leaves that are one of 7 licence/exception pairs are rewritten to (leaf OR deprecated combined id) before expansion", "an AND chain of >= 14 such pairs: 2^k alternatives"),
+ "C14-w4m2": ("allowed entries that are a top-level OR are expanded before being refused", "an entry 'Zed OR (AND of k OR groups)': 2^k work in the allowed-list argument"),
+ "C15-w4m1": ("removed bytes counted as 9 although only 8 leave the buffer when '+' follows a rewritten EXCEPTION id", "an exception with -or-later+ and a later unknown id"),
+ "C15-w4m2": ("offsets derived from uint8 counters of rewrites / folds", ">= 256 rewritten X-or-later ids before an unknown id"),
 }
 
 def status(r):
